@@ -20,6 +20,7 @@ const (
 	hexValNum       = 10
 	metaSeqLength   = 6
 	setDirectiveLen = 4
+	maxIncludeDepth = 32
 )
 
 // Parser is a inputrc parser.
@@ -32,6 +33,7 @@ type Parser struct {
 	mode      string
 	keymap    string
 	line      int
+	depth     int // $include nesting level of the data being parsed
 	conds     []bool
 	errs      []error
 }
@@ -362,6 +364,16 @@ func (p *Parser) do(handler Handler, keyword, val string) error {
 			return nil
 		}
 
+		// A file including itself (directly or not) would never stop.
+		if p.depth >= maxIncludeDepth {
+			return &ParseError{
+				Name: p.name,
+				Line: p.line,
+				Text: keyword + " " + val,
+				Err:  ErrIncludeTooDeep,
+			}
+		}
+
 		path := expandIncludePath(val)
 		buf, err := handler.ReadFile(path)
 
@@ -372,7 +384,7 @@ func (p *Parser) do(handler Handler, keyword, val string) error {
 			return err
 		}
 
-		return Parse(bytes.NewReader(buf), handler, WithName(val), WithApp(p.app), WithTerm(p.term), WithMode(p.mode))
+		return Parse(bytes.NewReader(buf), handler, WithName(val), WithApp(p.app), WithTerm(p.term), WithMode(p.mode), withDepth(p.depth+1))
 	}
 
 	if !p.conds[len(p.conds)-1] {
@@ -433,6 +445,13 @@ func WithTerm(term string) Option {
 func WithMode(mode string) Option {
 	return func(p *Parser) {
 		p.mode = mode
+	}
+}
+
+// withDepth is a parser option to set the $include nesting level.
+func withDepth(depth int) Option {
+	return func(p *Parser) {
+		p.depth = depth
 	}
 }
 
